@@ -1251,7 +1251,7 @@ class Logger:
             def __enter__(self):
                 return None
 
-            def __exit__(self, type_, value, traceback_):
+            def __exit__(self, type_, value, traceback_, *, _frames=0):
                 if type_ is None:
                     return None
 
@@ -1275,6 +1275,8 @@ class Logger:
 
                 if from_decorator:
                     depth += 1
+
+                depth += _frames
 
                 catch_options = [(type_, value, traceback_), depth, True, *options]
 
@@ -1353,7 +1355,7 @@ class Logger:
                 return self.__enter__()
 
             async def __aexit__(self, type_, value, traceback_):
-                return self.__exit__(type_, value, traceback_)
+                return self.__exit__(type_, value, traceback_, _frames=1)
 
         return Catcher(False)
 
